@@ -57,7 +57,7 @@ def main():
         "engines": engines,
         "checks": checks,
         "not_applicable": na,
-        "notes": "Technique family: static analysis only. Every check parses /repo's working tree on each run; exit 0 ok / 1 VIOLATION / 2 ANALYSIS-ERROR. Known findings: known_findings.json.",
+        "notes": "Technique family: static analysis only. Every check parses /repo's working tree on each run; exit 0 ok / 1 VIOLATION / 2 ANALYSIS-ERROR. Open known findings: known/<PID>.json (exact keys by rule and construct); repaired ones: known_findings.json (fixed: lines). Each check decides the structural clauses named in its level_claimed text; the behavioural quantifier itself (all inputs / schedules / histories) is not decided - see level_note and DESIGN.md sections 0, 4, 5.",
     }
     with open(os.path.join(VERIF, "MANIFEST.json"), "w") as f:
         json.dump(man, f, indent=1)
